@@ -122,18 +122,24 @@ struct Prog {
     kind: Kind,
     cap: usize,
     threads: Vec<Vec<Op>>,
+    /// robust set: indices acquired under the dead owner id before the threads start
+    pre_abandon: usize,
 }
 
 impl Prog {
     fn gen(rng: &mut Rng, kind: Kind) -> Prog {
         let cap = rng.range(1, 4) as usize;
-        let nt = rng.range(2, 3) as usize;
-        let allow_lock = kind != Kind::Pool && rng.chance(1, 3);
+        // 40 % of the robust programs are "several cleaners" programs: thread 0 abandons indices
+        // under the dead owner id, two other threads recover the dead owner concurrently while all
+        // keep acquiring (the stale-resource cleanup pattern of several surviving processes)
+        let cleaners = kind == Kind::Robust && rng.chance(2, 5);
+        let nt = if cleaners { 3 } else { rng.range(2, 3) as usize };
+        let allow_lock = kind != Kind::Pool && !cleaners && rng.chance(1, 3);
         let mut threads = Vec::new();
         for t in 0..nt {
             let n = rng.range(3, 7) as usize;
             let mut v = Vec::new();
-            if kind == Kind::Robust && t == 0 && rng.chance(1, 2) {
+            if kind == Kind::Robust && t == 0 && !cleaners && rng.chance(1, 2) {
                 for _ in 0..rng.range(1, 2) {
                     v.push(Op::Abandon);
                 }
@@ -156,14 +162,20 @@ impl Prog {
                     }
                 });
             }
+            if cleaners && t != 0 {
+                let pos = rng.below(v.len() as u64 + 1) as usize;
+                v.insert(pos, Op::Recover);
+            }
             threads.push(v);
         }
-        Prog { kind, cap, threads }
+        let pre_abandon = if cleaners { rng.range(1, cap.min(2) as u64) as usize } else { 0 };
+        Prog { kind, cap, threads, pre_abandon }
     }
     fn desc(&self) -> Json {
         Json::obj()
             .set("structure", format!("{:?}", self.kind))
             .set("capacity", self.cap)
+            .set("indices_abandoned_by_dead_owner_before_start", self.pre_abandon)
             .set("threads", Json::Arr(self.threads.iter().map(|t| Json::Str(t.iter().map(|o| format!("{:?}", o)).collect::<Vec<_>>().join(" "))).collect()))
     }
     fn shape(&self) -> u64 {
@@ -198,6 +210,12 @@ fn execute(p: &Prog, mode: &Mode) -> ExecResult {
     let tags: Vec<AtomicU64> = (0..MAXCAP).map(|_| AtomicU64::new(0)).collect();
     let canary: Vec<Canary> = (0..MAXCAP).map(|_| Canary(UnsafeCell::new(0))).collect();
     let abandon_done = AtomicBool::new(!p.threads[0].contains(&Op::Abandon));
+    let mut pre_log: Vec<Ev> = Vec::new();
+    for _ in 0..p.pre_abandon {
+        let call = ts::now();
+        let r = set.acquire(DEAD);
+        pre_log.push(Ev { t: 99, kind: K_ACQ, a: DEAD as i64, r, call, ret: ts::now() });
+    }
     let logs: Mutex<Vec<Vec<Ev>>> = Mutex::new(vec![Vec::new(); p.threads.len()]);
     let online: Mutex<Vec<(String, String)>> = Mutex::new(Vec::new());
     let plain_canary = p.kind != Kind::Robust;
@@ -307,7 +325,8 @@ fn execute(p: &Prog, mode: &Mode) -> ExecResult {
         }));
     }
     let stats = sched::run_threads(mode, bodies);
-    let logs = logs.into_inner().unwrap();
+    let mut logs = logs.into_inner().unwrap();
+    logs.push(pre_log);
     let mut viol: Vec<(String, String, String)> = online.into_inner().unwrap().into_iter().map(|(r, m)| (r.clone(), format!("{:?}:{}", p.kind, r), m)).collect();
     let mut v = |rule: &str, msg: String| viol.push((rule.to_string(), format!("{:?}:{}", p.kind, rule), msg));
 
